@@ -285,6 +285,8 @@ def execute_history(case, want):
     try:
         os.makedirs(root + "/src")
         prog = case["prog"]
+        if any(c.get("back") for n in prog["nodes"] for c in n["calls"]):
+            bump("programs_with_mutual_recursion")
         steps = list(enumerate(case["steps"]))
         # split into lifetimes
         lives = [[]]
